@@ -1,6 +1,7 @@
 import I18n.Lemmas.TagsLine
 import I18n.Generated.SafestrSites
 import I18n.Generated.TagSites
+import I18n.Generated.TagState
 /-!
 # C02 — one well-formed line per problem; file content cannot forge or corrupt output
 
@@ -165,6 +166,86 @@ theorem printed_tag_registered (db : UnicodeDB) (cfg : Config) (n : Str) (xs : L
       simp only [Except.ok.injEq] at h
       exact ⟨t, (findTag_mem ht).1, (findTag_mem ht).2, h.symm⟩
 
+/-! ## History independence: no call's line depends on what was formatted before -/
+
+/-- **format_calls_independent.**  The output of a run of `Checker.tag` calls is the concatenation of what each call prints
+    when taken alone: `calls.map (one call) = outs.map ok` and `out = outs.flatten`.  So the line of a call is a function
+    of that call's arguments (and the configuration) only — never of the calls before it.  (The model has no state to
+    carry from one call to the next; the real `_escape` / `Tag.format` are tied to that by the `tags-seq` stream and by
+    `escaper_stateless`.) -/
+theorem format_calls_independent (db : UnicodeDB) (cfg : Config) :
+    ∀ (calls : List (Str × List Extra)) (out : Str), runTags db cfg calls = .ok out →
+      ∃ outs : List Str,
+        calls.map (fun c => checkerTag db cfg c.1 c.2) = outs.map Except.ok ∧ out = outs.flatten := by
+  intro calls
+  induction calls with
+  | nil =>
+    intro out h
+    simp only [runTags, Except.ok.injEq] at h
+    exact ⟨[], by simp, by simp [← h]⟩
+  | cons call rest ih =>
+    intro out h
+    obtain ⟨n, xs⟩ := call
+    simp only [runTags] at h
+    split at h
+    · simp at h
+    · rename_i o ho
+      split at h
+      · simp at h
+      · rename_i o' ho'
+        simp only [Except.ok.injEq] at h
+        obtain ⟨outs, hmap, rfl⟩ := ih o' ho'
+        exact ⟨o :: outs, by simp [ho, hmap], by simp [← h]⟩
+
+/-- … and conversely the per-call outputs determine the run -/
+theorem format_calls_determine_run (db : UnicodeDB) (cfg : Config) (calls : List (Str × List Extra)) (outs : List Str)
+    (h : calls.map (fun c => checkerTag db cfg c.1 c.2) = outs.map Except.ok) :
+    runTags db cfg calls = .ok outs.flatten :=
+  runTags_of_calls db cfg calls outs h
+
+/-- **history_independent.**  The same calls `rest` after two different histories `pre₁`, `pre₂` print the same text `r`:
+    both outputs split as (what the history printed) ++ r, with `r` the output of `rest` run on its own. -/
+theorem history_independent (db : UnicodeDB) (cfg : Config) (pre₁ pre₂ rest : List (Str × List Extra)) (o₁ o₂ : Str)
+    (h₁ : runTags db cfg (pre₁ ++ rest) = .ok o₁) (h₂ : runTags db cfg (pre₂ ++ rest) = .ok o₂) :
+    ∃ p₁ p₂ r : Str, runTags db cfg pre₁ = .ok p₁ ∧ runTags db cfg pre₂ = .ok p₂ ∧ runTags db cfg rest = .ok r ∧
+      o₁ = p₁ ++ r ∧ o₂ = p₂ ++ r := by
+  rw [runTags_append] at h₁ h₂
+  cases hp₁ : runTags db cfg pre₁ with
+  | error e => simp [hp₁] at h₁
+  | ok p₁ =>
+    cases hp₂ : runTags db cfg pre₂ with
+    | error e => simp [hp₂] at h₂
+    | ok p₂ =>
+      cases hr : runTags db cfg rest with
+      | error e => simp [hp₁, hr] at h₁
+      | ok r =>
+        simp only [hp₁, hp₂, hr, Except.ok.injEq] at h₁ h₂
+        exact ⟨p₁, p₂, r, rfl, rfl, rfl, h₁.symm, h₂.symm⟩
+
+/-- **extra_token_independent.**  Inside one line, the token printed for an extra is `escape` of that extra alone,
+    whatever the extras before and after it. -/
+theorem extra_token_independent (db : UnicodeDB) (t : Tag) (p : Str) (pre post : List Extra) (x : Extra) :
+    format db t p (pre ++ x :: post) none =
+      lineOf t.priority.code p t.name (pre.map (escape db) ++ escape db x :: post.map (escape db)) := by
+  rw [format_plain]; simp
+
+def fnStateless (f : Generated.TagState.Fn) : Bool :=
+  (f.kind = "function" || f.kind = "method") && f.decorators.isEmpty && f.scopeDecls.isEmpty &&
+    f.mutableDefaults.isEmpty && f.writes.isEmpty && f.readsState.isEmpty
+
+/-- **escaper_stateless** (pin over the `ast` inventory regenerated from /repo on every run).  `_escape`, `safe_format`,
+    `Tag.format`, `Tag.get_priority`, `get_tag`, `message_repr` and `Checker.tag` are each bound by exactly one plain `def`
+    (not wrapped or re-assigned afterwards), carry no decorator (no `lru_cache`), declare nothing `global` / `nonlocal`,
+    have no non-constant default value, store into / mutate no non-local name and no parameter, and mention no
+    module-level name that some function body mutates — themselves or through the callees they reach in lib/tags.py,
+    msgrepr.py, cli.py.  This is the static reason why the stateless model can stand for the real functions; a memo
+    table in `_escape` (seeded change C02-c) breaks it. -/
+theorem escaper_stateless :
+    Generated.TagState.fns.map (·.key) =
+      ["lib/tags.py:_escape", "lib/tags.py:safe_format", "lib/tags.py:Tag.format", "lib/tags.py:Tag.get_priority",
+       "lib/tags.py:get_tag", "lib/check/msgrepr.py:message_repr", "lib/cli.py:Checker.tag"] ∧
+    ∀ f ∈ Generated.TagState.fns, fnStateless f = true := by decide
+
 /-! ## Priority letter and registry (tables regenerated from the live `lib.tags`) -/
 
 def probedLetter (s c : Nat) : Option Char :=
@@ -311,5 +392,24 @@ example : (pyFormat (lit "f({}): {x} }") [lit "1"] [(lit "x", lit "y")]).toOptio
 -- what the inventory theorem is about: a safestr extra is printed raw
 example : format liveDb demoTag (lit "x.po") [.safe [27, 91, 51, 49, 109]] none =
     lit "W: x.po: invalid-date " ++ [27, 91, 51, 49, 109] := by decide +kernel
+
+-- history independence is not vacuous: the same characters as `safestr` (tool text) and as `str` / `bytes` (file text) are
+-- different extras with different tokens …
+example : escape liveDb (.safe (lit "msgid foo:")) ≠ escape liveDb (.str (lit "msgid foo:")) := by decide +kernel
+example : escape liveDb (.safe (lit "msgid foo:")) = lit "msgid foo:" ∧
+    escape liveDb (.str (lit "msgid foo:")) = lit "'msgid foo:'" ∧
+    escape liveDb (.bytes ((lit "msgid foo:").map UInt8.ofNat)) = lit "'msgid foo:'" := by decide +kernel
+
+private def seqCfg : Config :=
+  { registry := [⟨lit "unknown-message-flag", .wishlist, .wildGuess⟩], ignore := [], path := lit "pl.po",
+    colours := fun _ => ([], []) }
+
+-- … and the run of seeded change C02-c: the tool names message `foo` (safestr), then a flag of message `bar` reads
+-- `msgid foo:` — it is printed quoted although the same characters were printed raw one call earlier
+example : (runTags liveDb seqCfg
+    [(lit "unknown-message-flag", [.safe (lit "msgid foo:"), .str (lit "fancy-flag")]),
+     (lit "unknown-message-flag", [.safe (lit "msgid bar:"), .str (lit "msgid foo:")])]).toOption =
+    some (lit "I: pl.po: unknown-message-flag msgid foo: fancy-flag\nI: pl.po: unknown-message-flag msgid bar: 'msgid foo:'\n") := by
+  decide +kernel
 
 end I18n.Props.C02
